@@ -409,9 +409,14 @@ def _mem_copy_back(ctx, run, f):
             continue
         # only the success path: dominated by the TRUE edge of the module's export () call
         succ = False
-        for src, lab, cond in flow.dominating_edges(f, b):
-            if lab == "T" and cond is not None and any(f.exprs[n]["k"] == "call" and "fn" in f.exprs[n] for n in ex.walk(f, cond)):
-                succ = True
+        for a in atoms.dominating_atoms(f, b):
+            # the module's export function (an indirect call) returned non-zero - whichever way the test is written
+            if a.rel == "!=" and a.R is not None and a.R.const == 0 and a.L.node is not None:
+                n0 = f.exprs[ex.skip(f, a.L.node)]
+                while n0["k"] == "cast":
+                    n0 = f.exprs[ex.skip(f, n0["c"][0])]
+                if n0["k"] == "call" and "fn" in n0:
+                    succ = True
         if not succ:
             continue
         key = "RF-DOM:vbi_export_mem:copy-back-before-free"
